@@ -59,6 +59,7 @@ NoBugs == {}
 KeepCtx == {"keepctx"}
 NoDrain == {"nodrain"}        \* the connection task exits on idle without draining what substreams have written
 CloseFirst == {"closefirst"}
+DrainAll == {"drainall"}      \* the drain in on_connection_closed swallows failed futures of other peers
 InvFilter == {"invfilter"}    \* on_connection_closed filters pending_outbound with the inverted predicate  \* on_connection_closed fails requests whose response has already arrived
 OnePeer == {p2}
 TwoPeers == {p2, p3}
@@ -227,26 +228,39 @@ OnConnEst(p, alive) ==
             /\ UNCHANGED <<inpeers, active, pout, sids>>
   /\ UNCHANGED <<fut, cancels, mgr, mdial, wedged, nc, kf>>
 
-\* on_connection_closed.  Request futures that are already complete are taken first (commit 98aebad): a response
-\* that has arrived (or a cancellation) wins over the close; everything else active for the peer fails.
-Arrived(p) == IF "closefirst" \in Bugs THEN {}
-              ELSE {r \in active[p] \cap DOMAIN fut : rq[r] = "answered" /\ r \in wire}
-CancelledReady(p) == IF "closefirst" \in Bugs THEN {} ELSE {r \in (active[p] \cap DOMAIN fut) \ Arrived(p) : fut[r]}
+\* on_connection_closed.  The request futures that are complete at that moment - of ALL peers - are taken first
+\* (commit 98aebad): a response that has arrived or a cancellation is handled as in the main loop whatever its peer;
+\* a failed future of ANOTHER peer is handled through the normal path as well (its request fails now); a failed
+\* future of the closing peer is left for the flush of `active` below.
+\*   "closefirst": no drain at all (the code before 98aebad)
+\*   "drainall"  : failed futures of other peers are consumed and dropped (seeded change C13e)
+ReadyResp == IF "closefirst" \in Bugs THEN {} ELSE {r \in DOMAIN fut : rq[r] = "answered" /\ r \in wire}
+ReadyCanc == IF "closefirst" \in Bugs THEN {} ELSE {r \in DOMAIN fut \ ReadyResp : fut[r]}
+\* a future may be complete with a failure (timeout, substream closed, read error) - see PFut
+MayFail(r) == ~(~Faults /\ rq[r] = "answered" /\ ~(mgr[tgt[r]] = "disc" /\ r \notin wire))
+ReadyFailedOthers(p) == IF "closefirst" \in Bugs THEN {{}}
+                        ELSE SUBSET {r \in DOMAIN fut \ (ReadyResp \cup ReadyCanc) : tgt[r] # p /\ MayFail(r)}
+Handled(r) == tgt[r] \in inpeers /\ r \in active[tgt[r]]     \* on_substream_event finds the request active
 OnConnClosed(p) ==
   /\ svc' = [svc EXCEPT ![p] = "none"]
   \* pending_outbound.retain(|_, context| context.peer != peer); "invfilter": the filter inverted - the dead
   \* contexts of the closed peer are kept and those of every other peer are removed
   /\ pout' = IF "invfilter" \in Bugs THEN [x \in {y \in DOMAIN pout : pout[y].p = p} |-> pout[x]]
                                      ELSE [x \in {y \in DOMAIN pout : pout[y].p # p} |-> pout[x]]
-  /\ IF p \in inpeers THEN
-       LET ar == Arrived(p) cr == CancelledReady(p) IN
+  /\ \E F \in ReadyFailedOthers(p) :
+       LET taken == ReadyResp \cup ReadyCanc \cup F                   \* futures consumed by the drain
+           resp  == {r \in ReadyResp : Handled(r)}
+           failO == IF "drainall" \in Bugs THEN {} ELSE {r \in F : Handled(r)}
+           done  == resp \cup {r \in ReadyCanc : Handled(r)} \cup failO  \* removed from `active` by on_substream_event
+           act1  == [q \in Peers |-> active[q] \ done]
+           flush == IF p \in inpeers THEN act1[p] ELSE {}
+       IN
+       /\ mon' = FailEvs(FailEvs(FoldSet(LAMBDA r, acc : MonResp(acc, R, r, A(r)), mon, resp), failO), flush)
+       /\ active' = [act1 EXCEPT ![p] = IF p \in inpeers THEN {} ELSE @]
        /\ inpeers' = inpeers \ {p}
-       /\ mon' = FailEvs(FoldSet(LAMBDA r, acc : MonResp(acc, R, r, A(r)), mon, ar), active[p] \ (ar \cup cr))
-       /\ active' = [active EXCEPT ![p] = {}]
-       /\ fut' = [r \in DOMAIN fut \ (ar \cup cr) |-> fut[r]]
-       /\ cancels' = cancels \ (ar \cup cr)
-       /\ rq' = [r \in Rids |-> IF r \in ar \cup cr /\ rq[r] # "delivered" THEN "over" ELSE rq[r]]
-     ELSE UNCHANGED <<inpeers, active, mon, fut, cancels, rq>>
+       /\ fut' = [r \in DOMAIN fut \ taken |-> fut[r]]
+       /\ cancels' = cancels \ taken
+       /\ rq' = [r \in Rids |-> IF r \in taken /\ rq[r] # "delivered" THEN "over" ELSE rq[r]]
   /\ UNCHANGED <<pdial, mgr, mdial, wedged, sids, nc, kf, inb, tgt, wire, gone>>
 
 \* on_dial_failure
